@@ -25,7 +25,18 @@ TSheet ==
        /\ refines' = (a = Ideal(Ev.tokens, Ev.sst))
   /\ l' = l + 1
 
-Next == TSheet
+\* fixture-driven events: pre_ids = the record ids of the real part up to and including
+\* BrtBeginSheetData, tokens from an independent tokeniser, values compared by coarse kind
+TFixture ==
+  /\ l <= Len(Rec) /\ Ev.e = "fixture"
+  /\ "error" \notin DOMAIN Ev
+  /\ NewPos(Ev.pre_ids) = Len(Ev.pre_ids) + 1
+  /\ LET a == AsIsK(Ev.tokens) IN
+       /\ Ev.start = a.start /\ Ev.end = a.end /\ Ev.cells = a.cells
+  /\ UNCHANGED refines
+  /\ l' = l + 1
+
+Next == TSheet \/ TFixture
 Spec == Init /\ [][Next]_vars
 Refines == refines
 
